@@ -245,22 +245,98 @@ def flog2bOut (isF64 : Bool) (bits : Nat) (r : Option (Float32 × Float32)) : St
       "ok " ++ log2bOut b num den
     | _ => "ok " ++ f32Hex b.1 ++ " " ++ f32Hex b.2
 
+/-- what a `log2_bounds` call is about: the exact positive rational `num/den`, zero, or an infinity -/
+inductive LTarget where
+  | val (num den : Nat)
+  | zero
+  | inf
+
+/-- the exact value(s) behind a log2-bounds op (one per reported pair of bounds) -/
+def log2Targets (op : String) (args : List String) : Option (List LTarget) :=
+  let ofNat (n : Nat) : LTarget := if n = 0 then .zero else .val n 1
+  match op, args with
+  | "u.log2b", [a] | "i.log2b", [a] => do
+    let a ← parseInt a; pure [ofNat a.natAbs]
+  | "f2.log2b", [s, e] | "f10.log2b", [s, e] => do
+    let s ← parseInt s; let e ← parseDec e
+    let B := if op = "f2.log2b" then 2 else 10
+    pure [if s = 0 then .zero else if e ≥ 0 then .val (s.natAbs * B ^ e.toNat) 1 else .val s.natAbs (B ^ (-e).toNat)]
+  | "q.log2b", [n, d] => do
+    let n ← parseInt n; let d ← parseNat d
+    if d = 0 then none else
+    let t : LTarget := if n = 0 then .zero else .val n.natAbs d
+    pure [t, t]                                   -- RBig and Relaxed
+  | "p.log2b", [ty, a] => do
+    let _ ← primBits ty; let a ← parseNat a; pure [ofNat a]
+  | "p.log2brange", [ty, lo, hi] => do
+    let _ ← primBits ty; let lo ← parseDecNat lo; let hi ← parseDecNat hi
+    pure ((List.range (hi - lo)).map fun i => ofNat (lo + i))
+  | "p.flog2b", [ty, b] =>
+    match parseNat b with
+    | none => none
+    | some b =>
+      let dec : Option (Option (Option (Nat × Int))) :=
+        match ty with
+        | "f32" => some (ieeeDecode 23 8 b)
+        | "f64" => some (ieeeDecode 52 11 b)
+        | _ => none
+      match dec with
+      | none => none
+      | some none => none                           -- NaN: not a number, no bounds to check
+      | some (some none) => some [LTarget.inf]
+      | some (some (some (m, e))) =>
+        some [if m = 0 then LTarget.zero
+              else if e ≥ 0 then LTarget.val (m * 2 ^ e.toNat) 1 else LTarget.val m (2 ^ (-e).toNat)]
+  | _, _ => none
+
+/-- all hexadecimal numbers of an answer, in order (`ok~lb~ub`, `ok~l:u,l:u,…`, `ok~l,u~l,u`) -/
+def payloadNumbers (p : String) : Option (List Nat) :=
+  let body := (p.replace "~" " ").replace "," " " |>.replace ":" " "
+  match body.splitOn " " |>.filter (· ≠ "") with
+  | "ok" :: rest => rest.mapM parseHexNat
+  | _ => none
+
+def pairUp : List Nat → List (Nat × Nat)
+  | a :: b :: rest => (a, b) :: pairUp rest
+  | _ => []
+
+/-- exact verdict on one reported pair of bounds -/
+def targetMark (i : Nat) (t : LTarget) (lb ub : Nat) : String :=
+  let f (x : Nat) : Float32 := Float32.ofBits (UInt32.ofNat x)
+  let m := match t with
+    | .val num den => enclosureMark (f lb) (f ub) num den
+    | .zero => enclosureMark (f lb) (f ub) 0 1
+    | .inf => if lb = 0x7f800000 ∧ ub = 0x7f800000 then "" else " !bounds-not-inf"
+  if m = "" then "" else " @" ++ toString i ++ m
+
+/-- `lb`/`ns`: the implementation's own bounds (echoed in `payload`) are checked for enclosing the
+    exact logarithm; only the enclosure is promised by the property, not the bit patterns -/
+def echoBounds (payload op : String) (args : List String) : Option String := do
+  let ts ← log2Targets op args
+  match payloadNumbers payload with
+  | none => pure "ok !no-bounds-reported"
+  | some ns =>
+    let ps := pairUp ns
+    if ps.length ≠ ts.length ∨ ns.length ≠ 2 * ts.length then pure "ok !wrong-number-of-bounds"
+    else
+      let marks := String.join ((List.range ts.length).map fun i =>
+        match ts[i]?, ps[i]? with
+        | some t, some (l, u) => targetMark i t l u
+        | _, _ => "")
+      pure ((payload.replace "~" " ") ++ marks)
+
 def dispatchC12 : Dispatch := fun W op args =>
   match op, args with
+  | "lb", payload :: iop :: iargs => echoBounds payload iop iargs
+  | "ns", payload :: iop :: iargs => echoBounds payload iop iargs
   | "u.gcd", [a, b] | "i.gcd", [a, b] | "ui.gcd", [a, b] | "iu.gcd", [a, b] => do
     let a ← parseInt a; let b ← parseInt b
-    let (x, y) := (a.natAbs, b.natAbs)
-    -- two distinct multi-word operands: also run the mirrored Lehmer loop (`lehmer::gcd_in_place`)
-    let mirror :=
-      if x ≥ 2 ^ (2 * W) ∧ y ≥ 2 ^ (2 * W) ∧ x ≠ y then
-        match lehmerGcd W (max x y) (min x y) with
-        | .ok g => if g = Nat.gcd x y then "" else " !model-lehmer-mirror-mismatch " ++ natToHex g
-        | .error k => " !model-lehmer-mirror-error " ++ k.name.replace " " "_"
-      else ""
-    pure (chk (exc natToHex (gcdRepr W x y)) (gcdSpec x y) ++ mirror)
+    -- every kernel mirrored, including the Lehmer loop of `gcd_in_place` for two multi-word operands
+    pure (chk (exc natToHex (gcdInt W a b)) (gcdSpec a.natAbs b.natAbs))
   | "u.gcdext", [a, b] | "i.gcdext", [a, b] | "ui.gcdext", [a, b] | "iu.gcdext", [a, b] => do
     let a ← parseInt a; let b ← parseInt b
-    pure (chk (gcdExtOut a b (gcdExtInt W lehmerExtFrontier a b)) (gcdExtSpec a b))
+    -- multi-word × multi-word through the mirrored `gcd_ext_in_place` (Lehmer with cofactor tracking)
+    pure (chk (gcdExtOut a b (gcdExtInt W (lehmerExtKernel W) a b)) (gcdExtSpec a b))
   | "u.sqrt", [a] => do
     let a ← parseNat a
     pure (rootOut a 2 (.ok (sqrtRepr W a)))
@@ -368,26 +444,10 @@ def dispatchC12 : Dispatch := fun W op args =>
   | "tab.log2", [_] => pure ("ok " ++ natToHex LOG2_TAB_PACKED)
   -- ---- no_std build of the libraries (table estimator): the case generator runs the harness built
   --      without the `std` feature and passes its answer as `payload`; the std harness echoes it
-  | "ns", _payload :: "p.log2b" :: [ty, a] => do
-    let _ ← primBits ty; let a ← parseNat a
-    pure ("ok " ++ log2bOut (log2BoundsPrimNoStd a) a 1)
-  | "ns", _payload :: "p.log2brange" :: [ty, lo, hi] => do
-    let _ ← primBits ty; let lo ← parseDecNat lo; let hi ← parseDecNat hi
-    let item (v : Nat) : String :=
-      let b := log2BoundsPrimNoStd v
-      f32Hex b.1 ++ ":" ++ f32Hex b.2 ++ enclosureMark b.1 b.2 v 1
-    pure ("ok " ++ ",".intercalate ((List.range (hi - lo)).map fun i => item (lo + i)))
   | "p.flog2b", [ty, b] => do
     let b ← parseNat b
     let is64 ← (match ty with | "f32" => some false | "f64" => some true | _ => none)
     pure (flog2bOut is64 b (log2BoundsFloatPrimStd is64 b))
-  | "ns", _payload :: "p.flog2b" :: [ty, b] => do
-    let b ← parseNat b
-    let is64 ← (match ty with | "f32" => some false | "f64" => some true | _ => none)
-    pure (flog2bOut is64 b (log2BoundsFloatPrimNoStd is64 b))
-  | "ns", _payload :: "u.log2b" :: [a] => do
-    let a ← parseNat a
-    pure ("ok " ++ log2bOut (log2BoundsNatNoStd W a) a 1)
   | "p.gcdrow", [ty, a, lo, hi] => do
     let _ ← primBits ty; let a ← parseDecNat a; let lo ← parseDecNat lo; let hi ← parseDecNat hi
     let item (v : Nat) : String :=
